@@ -10,13 +10,41 @@ import (
 	"verif/zsim"
 )
 
-type (
-	Value   = atomic.Value
-	Bool    = atomic.Bool
-	Uintptr = atomic.Uintptr
-)
+// Every typed value yields before each operation: code that replaces a lock
+// or a sync.Once by hand-made atomics is interleaved at exactly those points.
 
-type Pointer[T any] = atomic.Pointer[T]
+type Bool struct{ v atomic.Bool }
+
+func (x *Bool) y()                            { zsim.Yield(zsim.KAtomic, unsafe.Pointer(x)) }
+func (x *Bool) Load() bool                    { x.y(); return x.v.Load() }
+func (x *Bool) Store(v bool)                  { x.y(); x.v.Store(v) }
+func (x *Bool) Swap(v bool) bool              { x.y(); return x.v.Swap(v) }
+func (x *Bool) CompareAndSwap(o, n bool) bool { x.y(); return x.v.CompareAndSwap(o, n) }
+
+type Uintptr struct{ v atomic.Uintptr }
+
+func (x *Uintptr) y()                               { zsim.Yield(zsim.KAtomic, unsafe.Pointer(x)) }
+func (x *Uintptr) Load() uintptr                    { x.y(); return x.v.Load() }
+func (x *Uintptr) Store(v uintptr)                  { x.y(); x.v.Store(v) }
+func (x *Uintptr) Swap(v uintptr) uintptr           { x.y(); return x.v.Swap(v) }
+func (x *Uintptr) Add(d uintptr) uintptr            { x.y(); return x.v.Add(d) }
+func (x *Uintptr) CompareAndSwap(o, n uintptr) bool { x.y(); return x.v.CompareAndSwap(o, n) }
+
+type Pointer[T any] struct{ v atomic.Pointer[T] }
+
+func (x *Pointer[T]) y()                          { zsim.Yield(zsim.KAtomic, unsafe.Pointer(x)) }
+func (x *Pointer[T]) Load() *T                    { x.y(); return x.v.Load() }
+func (x *Pointer[T]) Store(v *T)                  { x.y(); x.v.Store(v) }
+func (x *Pointer[T]) Swap(v *T) *T                { x.y(); return x.v.Swap(v) }
+func (x *Pointer[T]) CompareAndSwap(o, n *T) bool { x.y(); return x.v.CompareAndSwap(o, n) }
+
+type Value struct{ v atomic.Value }
+
+func (x *Value) y()                           { zsim.Yield(zsim.KAtomic, unsafe.Pointer(x)) }
+func (x *Value) Load() any                    { x.y(); return x.v.Load() }
+func (x *Value) Store(v any)                  { x.y(); x.v.Store(v) }
+func (x *Value) Swap(v any) any               { x.y(); return x.v.Swap(v) }
+func (x *Value) CompareAndSwap(o, n any) bool { x.y(); return x.v.CompareAndSwap(o, n) }
 
 type Int32 struct{ v atomic.Int32 }
 
